@@ -95,6 +95,9 @@ def _check_text_storable(values):
     for val in values:
         if "\x00" in val:
             raise ValueError("Text values must not contain NUL characters")
+        # text that cannot be encoded as UTF-8 (a lone surrogate) is refused
+        # by h5py as well, after the resize
+        val.encode("utf-8")
 
 
 class Property(Entity):
